@@ -1008,6 +1008,34 @@ namespace bloch::runtime {
             }
             if (auto bit = declByName.find(declaredBase); bit != declByName.end())
                 populate(bit->second);
+            // A generic base is instantiated on the spot and copies the layout of the first
+            // non-generic class up its template chain: that class must be complete as well.
+            if (auto named = dynamic_cast<NamedType*>(clsNode->baseType.get())) {
+                const NamedType* cur = named->typeArguments.empty() ? nullptr : named;
+                std::unordered_set<std::string> seenTemplates;
+                while (cur && !cur->nameParts.empty()) {
+                    auto tmplIt = m_genericTemplates.find(cur->nameParts.back());
+                    if (tmplIt == m_genericTemplates.end()) {
+                        if (auto bit = declByName.find(cur->nameParts.back());
+                            bit != declByName.end())
+                            populate(bit->second);
+                        break;
+                    }
+                    if (!seenTemplates.insert(tmplIt->first).second)
+                        break;
+                    compiler::ClassDeclaration* tmpl = tmplIt->second;
+                    if (auto next = dynamic_cast<NamedType*>(tmpl->baseType.get())) {
+                        cur = next;
+                    } else {
+                        if (!tmpl->baseName.empty()) {
+                            if (auto bit = declByName.find(tmpl->baseName.back());
+                                bit != declByName.end())
+                                populate(bit->second);
+                        }
+                        break;
+                    }
+                }
+            }
             RuntimeClass* rc = findClass(clsNode->name);
             if (!rc)
                 return;
